@@ -474,10 +474,43 @@ fn gen_crowd_case(seed: u64) -> Case {
     Case { run, res, sample, retain: false }
 }
 
+/// Wide crowd: 14-20 iterators over two any-two-cards ranges are alive (created, on an
+/// empty scope, with polls left) while a small evaluator whose range has a weight-0
+/// combo runs: tens of thousands of range entries alive at once.
+fn gen_wide_crowd_case(seed: u64) -> Case {
+    let mut rng = Rng::new(seed);
+    let all: Vec<(u8, u8, u32)> = all_combos().into_iter().map(|c| (c.0, c.1, 1.0f32.to_bits())).collect();
+    let wide = Scenario { flop: gen_flop(&mut rng), players: vec![RangeRecipe::simple(all.clone()), RangeRecipe::simple(all)] };
+    let mut ventries: Vec<(u8, u8, u32)> = gen_combos(&mut rng, 4, false).into_iter().map(|c| (c.0, c.1, 1.0f32.to_bits())).collect();
+    ventries[1].2 = 0.0f32.to_bits();
+    let victim = Scenario { flop: gen_flop(&mut rng), players: vec![RangeRecipe::simple(ventries)] };
+    let scens = vec![victim, wide];
+    let fi = rng.usize_below(NPOS - 12);
+    let mut specs = vec![TaskSpec { scen: 0, scope: Some((pos_from_index(fi), pos_from_index(fi + 8))), pre: vec![], extra_polls: 0 }];
+    let crowd = rng.range(14, 20) as usize;
+    for _ in 0..crowd {
+        specs.push(TaskSpec { scen: 1, scope: Some((FIRST, FIRST)), pre: vec![], extra_polls: 3 });
+    }
+    let mut steps: Vec<Step> = (1..=crowd).map(|i| Step { task: i as u16, exec: INLINE, op: Op::Next }).collect();
+    steps.push(Step { task: 0, exec: INLINE, op: Op::Drain });
+    for i in 1..=crowd {
+        steps.push(Step { task: i as u16, exec: INLINE, op: Op::Drain });
+    }
+    let run = Run { scens: scens.clone(), specs, steps, execs: 0 };
+    let res = check_run(&run, false);
+    let sample = json!({"wide_crowd_case": true, "live_any_two_cards_iterators": crowd, "victim": scens[0].short()});
+    Case { run, res, sample, retain: false }
+}
+
 fn gen_case(seed: u64, thorough: bool, fresh: bool) -> Case {
     let mut rng = Rng::new(seed);
     if !fresh && rng.chance(1, 40) {
         return gen_retention_case(rng.next_u64());
+    }
+    if !fresh && rng.chance(1, 80) {
+        let mut c = gen_wide_crowd_case(rng.next_u64());
+        *c.res.probes.entry("wide_crowd_runs_30k_plus_live_range_entries".into()).or_insert(0) += 1;
+        return c;
     }
     if !fresh && rng.chance(1, 60) {
         let mut c = gen_crowd_case(rng.next_u64());
